@@ -389,6 +389,27 @@ def check_same_genes_same_stream(h: Harness):
                     break
 
 
+def check_float_bounds(h: Harness):
+    """random_float(lo, hi) of the genotype-backed sources at the TOP of the range (the gene that selects the largest
+    value), for bounds where lo + (hi - lo) rounds above hi in floating point"""
+    pairs = [(-3.66, 0.58), (-0.55, 3.06), (-2.71, 2.02), (-1.25, 0.95), (-4.57, -1.05), (0.1, 0.3), (0.0, 1.0), (9.0, 10.0)]
+    g = grammar()
+    for lo, hi in pairs:
+        for gene in (0, 1, 2, 10, 1024, 2048, sys.maxsize):
+            sources = [("ge.ListWrapper", lambda: GEListWrapper([gene, gene, gene])),
+                       ("stackgggp.ListWrapper", lambda: StackListWrapper([gene, gene, gene])),
+                       ("StructuredListWrapper", lambda: StructuredListWrapper({"$infrastructure": [gene, gene, gene]})),
+                       ("GenotypeBackedSource", lambda: dsge.GenotypeBackedSource(dsge.DynamicSGEDecider(dsge.Genotype(ScriptedSource([]), {float: [gene]}), g, max_depth=5)))]
+            for name, mk in sources:
+                v = call(h, name, lambda: mk().random_float(lo, hi))
+                h.seen(f"float-top:{name}:{lo}:{hi}:{gene}", nontrivial=True)
+                h.count(f"float-bounds:{name}")
+                if isinstance(v, str):
+                    h.fail(name + ".random_float", "raises", f"{name}.random_float({lo}, {hi}) with genes {gene} raised {v}", [name, lo, hi, gene])
+                elif not (isinstance(v, float) and lo <= v <= hi):
+                    h.fail(name + ".random_float", "out-of-bounds", f"{name}.random_float({lo}, {hi}) = {v!r} for genes [{gene}, ...]", [name, lo, hi, gene])
+
+
 def check_native(h: Harness):
     rng = h.rng
     for seed in [0, 1, 123, rng.randrange(10**6)]:
@@ -429,4 +450,5 @@ def run(h: Harness):
     check_randint_sources(h)
     check_deciders(h)
     check_same_genes_same_stream(h)
+    check_float_bounds(h)
     check_native(h)
